@@ -8,16 +8,20 @@ import (
 	"strings"
 
 	"github.com/polynetwork/poly/common"
+	"github.com/polynetwork/poly/native"
+	"github.com/polynetwork/poly/native/states"
 	"polyverif/internal/hx"
 )
 
 // Family witness (C18): every registered privileged native method, called on the real contracts (real NativeService,
 // CacheDB, overlay on an in-memory LevelDB) under every combination of signers, directly and through calling contracts.
 //
-//	try|do <id…> <variant> via=<-|A|A,B> signers=<roles> owner=<role> | operator=<hex> owneraddr=<hex> signeraddrs=<hex,…|-> due=<0|1> pre=<ok|fail> post=<ok|fail|panic>
+//	try|do|seq <id…> <variant> via=<-|A|A,B> signers=<roles> owner=<role> payer=<role|-> | operator=<hex> owneraddr=<hex> signeraddrs=<hex,…|-> due=<0|1> pre=<ok|fail> post=<ok|fail|panic>
 //
-// `try` executes without persisting, `do` persists a successful call. Roles: op (current consensus operator multi-signature
-// address), v1..v4 (single validators), own, oth, A, B (the scripted contracts), z (zero address). The fields after `|`
+// `try` executes without persisting, `do` persists a successful call, `seq` calls the method twice in one transaction (directly
+// from contract A, then through A -> B.relay); `world <n>` (first op of a case) chooses the number of consensus validators.
+// Roles: op (current consensus operator = m-of-n multi-signature address, recomputed here with AddressFromMultiPubKeys),
+// opm1 (the (m-1)-of-n address of the same keys), v1..v9 (single validators), own, oth, A, B (the scripted contracts), z (zero address). The fields after `|`
 // are what the Lean model needs and cannot compute (addresses are hashes of keys; `post` = outcome of the same call when
 // every witness is present, i.e. whether the method's body succeeds once authorised; `pre` = whether the call reaches its
 // guard at all, observed with no witness present); the harness recomputes them and
@@ -25,6 +29,7 @@ import (
 
 type witness struct {
 	candOwner *common.Address // who registered the candidate key candKey (nil: nobody yet in this case)
+	n     int                 // consensus validators of the next world (op `world <n>`, default 7)
 	w     *nworld
 	specs map[string]methodSpec
 	order []string
@@ -43,13 +48,17 @@ func init() {
 
 func (f *witness) Reset(r *hx.Run) {
 	f.candOwner = nil
+	f.n = 7
 	f.w.close()
 	f.w = nil
 }
 
 func (f *witness) ensure() {
 	if f.w == nil {
-		f.w = newNWorld()
+		if f.n == 0 {
+			f.n = 7
+		}
+		f.w = newNWorld(f.n)
 		f.w.setupChains()
 	}
 }
@@ -58,6 +67,8 @@ func (f *witness) role(s string) (common.Address, bool) {
 	switch s {
 	case "op":
 		return f.w.operator(), true
+	case "opm1": // the (m-1)-of-n multi-signature address of the same keys: one signature short of the operator
+		return f.w.operatorShort(), true
 	case "own":
 		return ownKey.addr, true
 	case "oth":
@@ -69,7 +80,7 @@ func (f *witness) role(s string) (common.Address, bool) {
 	case "B":
 		return addrB, true
 	}
-	if len(s) == 2 && s[0] == 'v' && s[1] >= '1' && s[1] <= '4' {
+	if len(s) == 2 && s[0] == 'v' && s[1] >= '1' && s[1] <= '9' {
 		return valKeys[s[1]-'1'].addr, true
 	}
 	return common.Address{}, false
@@ -113,13 +124,15 @@ func ahexList(as []common.Address) string {
 // allWitnesses: a signer set under which every guard passes.
 func (f *witness) allWitnesses(owner common.Address) []common.Address {
 	out := []common.Address{f.w.operator(), owner}
-	for _, k := range valKeys {
+	for _, k := range valKeys[:f.w.n] {
 		out = append(out, k.addr)
 	}
 	return out
 }
 
 type wcall struct {
+	seq     bool // two calls in one transaction: directly from contract A, then through A -> B.relay
+	payer   common.Address
 	commit  bool
 	spec    methodSpec
 	variant int
@@ -136,10 +149,11 @@ func (f *witness) parse(op []string) (c wcall, model []string, ok bool) {
 			bar = i
 		}
 	}
-	if bar < 0 || bar < 7 || (op[0] != "try" && op[0] != "do") {
+	if bar < 0 || bar < 8 || (op[0] != "try" && op[0] != "do" && op[0] != "seq") {
 		return c, nil, false
 	}
 	c.commit = op[0] == "do"
+	c.seq = op[0] == "seq"
 	spec, found := f.specs[op[1]+" "+op[2]]
 	if !found {
 		return c, nil, false
@@ -151,8 +165,16 @@ func (f *witness) parse(op []string) (c wcall, model []string, ok bool) {
 	v, ok1 := kv(op[4], "via")
 	s, ok2 := kv(op[5], "signers")
 	o, ok3 := kv(op[6], "owner")
-	if !ok1 || !ok2 || !ok3 {
+	py, ok4 := kv(op[7], "payer")
+	if !ok1 || !ok2 || !ok3 || !ok4 {
 		return c, nil, false
+	}
+	if py != "-" {
+		pa, okp := f.role(py)
+		if !okp {
+			return c, nil, false
+		}
+		c.payer = pa
 	}
 	var okk bool
 	if c.via, okk = f.roles(v); !okk {
@@ -167,6 +189,60 @@ func (f *witness) parse(op []string) (c wcall, model []string, ok bool) {
 	return c, op[bar+1:], true
 }
 
+// code builds the invoke code of the transaction of a call.
+func (f *witness) code(c wcall) []byte {
+	if !c.seq {
+		return relayCode(c.via, c.spec.contract, c.spec.method, c.spec.args(c.owner, c.variant))
+	}
+	// A.seq [ G(variant) ; B.relay(G(variant+1)) ]: the second call reaches the guarded method through another frame
+	first := invokeCode(c.spec.contract, c.spec.method, c.spec.args(c.owner, c.variant))
+	second := relayCode([]common.Address{addrB}, c.spec.contract, c.spec.method, c.spec.args(c.owner, c.variant+1))
+	return invokeCode(addrA, "seq", seqArgs(first, second))
+}
+
+// codeAuthorised: the same bodies, every call made directly by A (so that both guards pass when the owner is A or signed).
+func (f *witness) codeAuthorised(c wcall) []byte {
+	if !c.seq {
+		return f.code(c)
+	}
+	first := invokeCode(c.spec.contract, c.spec.method, c.spec.args(c.owner, c.variant))
+	second := invokeCode(c.spec.contract, c.spec.method, c.spec.args(c.owner, c.variant+1))
+	return invokeCode(addrA, "seq", seqArgs(first, second))
+}
+
+func seqArgs(a, b []byte) []byte {
+	s := common.NewZeroCopySink(nil)
+	s.WriteVarBytes(a)
+	s.WriteVarBytes(b)
+	return s.Bytes()
+}
+
+// seqHandler (scripted contracts): two nested calls in one transaction, errors propagate.
+func seqHandler(s *native.NativeService) ([]byte, error) {
+	src := common.NewZeroCopySource(s.GetInput())
+	var last []byte
+	for i := 0; i < 2; i++ {
+		raw, eof := src.NextVarBytes()
+		if eof {
+			return nil, errParse
+		}
+		p := new(states.ContractInvokeParam)
+		if err := p.Deserialization(common.NewZeroCopySource(raw)); err != nil {
+			return nil, err
+		}
+		res, err := s.NativeCall(p.Address, p.Method, p.Args)
+		if err != nil {
+			return nil, err
+		}
+		b, ok := res.([]byte)
+		if !ok {
+			return nil, fmt.Errorf("seq: nested call returned %T", res)
+		}
+		last = b
+	}
+	return last, nil
+}
+
 // modelFields recomputes what the model is told about this call.
 func (f *witness) modelFields(c wcall) []string {
 	due := "0"
@@ -174,7 +250,7 @@ func (f *witness) modelFields(c wcall) []string {
 		due = "1"
 	}
 	post := "fail"
-	if o := f.w.invoke(f.allWitnesses(c.owner), c.via, c.spec.contract, c.spec.method, c.spec.args(c.owner, c.variant), false); o.ok {
+	if o := f.w.invokeCodeTx(f.allWitnesses(c.owner), common.ADDRESS_EMPTY, f.codeAuthorised(c), false); o.ok {
 		post = "ok"
 	} else if o.panicked {
 		post = "panic"
@@ -183,7 +259,7 @@ func (f *witness) modelFields(c wcall) []string {
 	// signer and without calling contract no guard passes, so anything but a witness rejection happened before it
 	pre := "ok"
 	if post != "ok" {
-		if o := f.w.invoke(nil, nil, c.spec.contract, c.spec.method, c.spec.args(c.owner, c.variant), false); o.class() != "reject:witness" {
+		if o := f.w.invoke(nil, nil, c.spec.contract, c.spec.method, c.spec.args(c.owner, c.variant), false); o.class() != "reject:witness" && !(c.seq && o.ok) {
 			pre = "fail"
 		}
 	}
@@ -198,6 +274,16 @@ func (f *witness) Exec(r *hx.Run, op []string) string {
 		f.w.height += n
 		return "ok"
 	}
+	if len(op) == 2 && op[0] == "world" && allDigits(op[1]) {
+		var n int
+		fmt.Sscan(op[1], &n)
+		if n < 4 || n > 9 || f.w != nil {
+			return "bad-op" // only as the first op of a case
+		}
+		f.n = n
+		f.ensure()
+		return "ok"
+	}
 	c, model, ok := f.parse(op)
 	if !ok {
 		return "bad-op"
@@ -207,7 +293,7 @@ func (f *witness) Exec(r *hx.Run, op []string) string {
 	// a comparison with a model fed with outdated observations would be meaningless.
 	stale := strings.Join(model, " ") != strings.Join(f.modelFields(c), " ")
 	opBefore, dueBefore := f.w.operator(), f.w.due()
-	out := f.w.invoke(c.signers, c.via, c.spec.contract, c.spec.method, c.spec.args(c.owner, c.variant), c.commit)
+	out := f.w.invokeCodeTx(c.signers, c.payer, f.code(c), c.commit)
 	cls := out.class()
 	if out.panicked {
 		r.Hist("handler-panic." + c.spec.id)
@@ -232,11 +318,17 @@ func (f *witness) Exec(r *hx.Run, op []string) string {
 			has = true
 		}
 	}
-	if len(c.via) > 0 && c.via[len(c.via)-1] == required && required != common.ADDRESS_EMPTY {
+	if !c.seq && len(c.via) > 0 && c.via[len(c.via)-1] == required && required != common.ADDRESS_EMPTY {
 		has = true // the immediately calling contract
 	}
+	if c.seq && required == addrB {
+		has = true // the second call is made by B
+	}
 	id := strings.ReplaceAll(c.spec.id, " ", ".")
-	if out.ok && need && !has {
+	if out.ok && need && !has && c.seq {
+		r.Viol("C18:witness-outlives-frame:"+id, fmt.Sprintf("%s was called twice in one transaction, directly by contract A and then through A -> B; both calls succeeded although the second one has neither a signature of %x nor that address as its immediate caller",
+			c.spec.id, required[:]))
+	} else if out.ok && need && !has {
 		r.Viol("C18:no-witness-required:"+id, fmt.Sprintf("%s succeeded for signers [%s] via [%s] although it is reserved to %s %x (which neither signed nor is the calling contract)",
 			c.spec.id, op[5], op[4], c.spec.want, required[:]))
 	}
@@ -247,7 +339,7 @@ func (f *witness) Exec(r *hx.Run, op []string) string {
 		case "side_chain_manager updateSideChain", "side_chain_manager quitSideChain":
 			stored = &ownKey.addr // every side chain of this world was registered by `own`
 		case "node_manager quitNode":
-			stored = &valKeys[3].addr
+			stored = &valKeys[3+c.variant%3].addr
 		case "node_manager unRegisterCandidate":
 			stored = f.candOwner
 		}
@@ -259,8 +351,11 @@ func (f *witness) Exec(r *hx.Run, op []string) string {
 			f.candOwner = &o
 		}
 	}
+	if c.seq && cls == "reject:witness" && !stale {
+		return "reject:witness" // the first of the two calls may have written before the second one was refused
+	}
 	if stale {
-		if cls == "reject:witness" && out.writes != 0 {
+		if !c.seq && cls == "reject:witness" && out.writes != 0 {
 			r.Viol("C18:write-before-guard:"+id, fmt.Sprintf("%s was rejected for lack of witness after writing %d storage entries", c.spec.id, out.writes))
 		}
 		return "stale-op"
@@ -275,7 +370,11 @@ func (f *witness) Exec(r *hx.Run, op []string) string {
 }
 
 func (f *witness) line(kind, id string, variant int, via, signers, owner string) string {
-	head := fmt.Sprintf("%s %s %d via=%s signers=%s owner=%s", kind, id, variant, via, signers, owner)
+	return f.lineP(kind, id, variant, via, signers, owner, "-")
+}
+
+func (f *witness) lineP(kind, id string, variant int, via, signers, owner, payer string) string {
+	head := fmt.Sprintf("%s %s %d via=%s signers=%s owner=%s payer=%s", kind, id, variant, via, signers, owner, payer)
 	c, _, ok := f.parse(append(strings.Fields(head), "|", "x"))
 	if !ok {
 		panic("generator produced an unparsable line: " + head)
@@ -290,17 +389,26 @@ func (f *witness) Gen(r *hx.Run) {
 		defer pprof.StopCPUProfile()
 	}
 	r.Rule("every method of the guard table that can be invoked (27 governance/cross-chain methods, SyncGenesisHeader for 21 routers, 2 unguarded controls) x signer sets {-, op, each single validator, three validators, own, oth, op+own, oth+own, the zero address} x owner role x direct / through one / through two calling contracts, on a state with 4 consensus validators and a registered side chain per router; successful calls of the stateful walk are persisted, so later calls see candidates, requests and approvals; distinct non-trivial = distinct (method, signer set, owner role, via, outcome)")
-	signerSets := []string{"-", "op", "v1", "v2", "v1,v2,v3", "own", "oth", "op,own", "oth,own", "z", "v4", "op,oth"}
+	signerSets := []string{"-", "op", "v1", "v2", "v1,v2,v3", "own", "oth", "op,own", "oth,own", "z", "v4", "op,oth", "opm1"}
 	owners := []string{"own", "oth", "v1", "v4", "op", "A", "z"}
 	vias := []string{"-", "A", "B", "A,B", "B,A", "A,A"}
-	do := func(caseID string, kind, id string, variant int, via, signers, owner string) string {
+	doP := func(kind, id string, variant int, via, signers, owner, payer string) string {
 		f.ensure()
-		l := f.line(kind, id, variant, via, signers, owner)
+		l := f.lineP(kind, id, variant, via, signers, owner, payer)
 		res := r.Do(l)
-		r.Nontrivial(id + "/" + signers + "/" + owner + "/" + via + "/" + res)
+		r.Nontrivial(kind + "/" + id + "/" + signers + "/" + owner + "/" + via + "/" + payer + "/" + res)
 		r.Hist("class." + strings.Fields(res)[0])
 		r.Hist("method." + id)
+		if kind == "seq" {
+			r.Hist("two-calls-one-tx")
+		}
+		if payer != "-" {
+			r.Hist("payer-named")
+		}
 		return res
+	}
+	do := func(caseID string, kind, id string, variant int, via, signers, owner string) string {
+		return doP(kind, id, variant, via, signers, owner, "-")
 	}
 	// systematic: every method x every signer set, owner = own, direct; nothing persisted
 	cid := 0
@@ -320,12 +428,45 @@ func (f *witness) Gen(r *hx.Run) {
 			do("", "try", id, 0, v, "-", "A")
 			do("", "try", id, 0, v, "own", "own")
 		}
+		// the transaction's payer field names the owner / the operator, the signer is a stranger or nobody
+		for _, py := range []string{"own", "op"} {
+			doP("try", id, 0, "-", "oth", "own", py)
+			doP("try", id, 0, "-", "-", "own", py)
+		}
+		doP("try", id, 0, "-", "own", "own", "oth")
+		// two calls in one transaction: directly by contract A, then through A -> B (a witness obtained in the first frame
+		// must not carry over)
+		for _, so := range [][2]string{{"-", "A"}, {"-", "own"}, {"own", "own"}, {"-", "B"}, {"op", "A"}} {
+			doP("seq", id, 0, "-", so[0], so[1], "-")
+		}
+	}
+	// the operator address for 4..9 consensus validators: the m-of-n multi-signature address (m = n - (n-1)/3, computed here
+	// with AddressFromMultiPubKeys), and the (m-1)-of-n address of the same keys, which must be refused
+	for n := 4; n <= 9; n++ {
+		cid++
+		r.Case(fmt.Sprintf("validators-%d", n))
+		f.n = n
+		r.Do(fmt.Sprintf("world %d", n))
+		for _, id := range f.order {
+			if w := f.specs[id].want; w != "operator" && w != "operatorOrDue" {
+				continue
+			}
+			if strings.HasPrefix(id, "header_sync/") && id != "header_sync/eth SyncGenesisHeader" && id != "header_sync/btc SyncGenesisHeader" {
+				continue
+			}
+			for _, s := range []string{"op", "opm1", "-", "v1", "v1,v2,v3", "opm1,oth"} {
+				do("", "try", id, 0, "-", s, "own")
+			}
+		}
+		r.Nontrivial(fmt.Sprintf("validators/%d", n))
 	}
 	// stateful walks: successful calls are persisted
 	n := r.Pick(12, 400)
 	for w := 0; w < n; w++ {
 		cid++
 		r.Case(fmt.Sprintf("walk-%d", cid))
+		f.n = 4 + r.Rng.Intn(6)
+		r.Do(fmt.Sprintf("world %d", f.n))
 		steps := r.Pick(40, 120)
 		for i := 0; i < steps; i++ {
 			id := f.order[r.Rng.Intn(len(f.order))]
@@ -355,7 +496,14 @@ func (f *witness) Gen(r *hx.Run) {
 					r.Do("height 60000")
 				}
 			}
-			do("", kind, id, r.Rng.Intn(3), via, signers, owner)
+			payer := "-"
+			if r.Rng.Chance(1, 6) {
+				payer = []string{"own", "op", "oth", "v1"}[r.Rng.Intn(4)]
+			}
+			if r.Rng.Chance(1, 10) {
+				kind, via = "seq", "-"
+			}
+			doP(kind, id, r.Rng.Intn(3), via, signers, owner, payer)
 		}
 	}
 }
